@@ -29,7 +29,7 @@ CHECKS = {
             "Trusted: hook H1 converts the injected clock exactly like the real one. Pre-epoch wall clocks not generated.",
             "DESIGN.md section 10 C09"),
     "C02": ("E1", "exploration",
-            "Real KeyspaceGroup + keyspace actors + ConsistencyService handlers on a paused tokio runtime over SimStorage; seeded request histories (all message kinds, both sources, arbitrary timestamps, concurrent groups, storage latency) plus a sweep of every storage-failure position x partial-success count; after every request group the actor's serialised set must equal the store rows.",
+            "Real KeyspaceGroup + keyspace actors + ConsistencyService handlers on a paused tokio runtime over SimStorage; seeded request histories (all message kinds, both sources, arbitrary timestamps, concurrent groups, storage latency) plus a sweep of every storage-failure position x partial-success count; after every request group the actor's serialised set must equal the store rows. One case in 47 is a full cluster scenario (stub or real membership) judged by the same comparison on every node at the final quiescent point.",
             "Trusted: SimStorage (contract-conforming faults only), rkyv-validated decoding of the Serialize reply. Keyspaces created sequentially (C18 owns concurrent creation).",
             "DESIGN.md section 10 C02"),
     "C07": ("E1", "fault_enumeration",
@@ -45,20 +45,20 @@ CHECKS = {
             "Trusted: the required-count table in DESIGN.md. thread_rng replaced by the seeded hook PRNG; Instant by tokio virtual time.",
             "DESIGN.md section 10 C15"),
     "C16": ("E1", "exploration",
-            "The real datacake-node watch_membership_changes fed seeded snapshot sequences; subscribers from the real DatacakeHandle attach at seeded moments and read with seeded delays, folding joined/left; at quiescence each must hold exactly the live membership, and every departure must have been reported in `left` with the old address. Late/slow-subscriber losses are recorded known findings.",
-            "chitchat is a stub (harness-supplied snapshots through the same watch-channel type).",
+            "The real datacake-node watch_membership_changes fed seeded snapshot sequences; subscribers from the real DatacakeHandle attach at seeded moments and read with seeded delays, folding joined/left; at quiescence each must hold exactly the live membership, and every departure must have been reported in `left` with the old address. Late/slow-subscriber losses are recorded known findings. One case in 127 is a real cluster (public API only, real gossip layer over the simulated network, long link holds, crashes, restarts, address moves) whose per-node subscriber must add up to the membership layer's own view at quiescence.",
+            "chitchat is a stub in the single-node cases (harness-supplied snapshots through the same watch-channel type); in the real-cluster arm it is the vendored fork with replay patches only.",
             "DESIGN.md section 10 C16"),
     "C17": ("E1", "exploration",
             "Real SqliteStorage (file), LmdbStorage (directory) and MemStore driven call by call next to a map reference model, with clean close+reopen, kill -9 file images between calls and LMDB map-full; full audit (iter_metadata, get, multi_get, keyspace-list envelope) after every mutating call.",
             "Contract-conforming call sequences only. SQLite/LMDB internals trusted (no seam below the C libraries); real worker threads, calls awaited one at a time.",
             "DESIGN.md section 10 C17"),
     "C18": ("E1", "exploration",
-            "1-6 tasks first-use one keyspace name concurrently through the write path, the ConsistencyService/ReplicationService handlers and the repair path, with seeded offsets, storage latency and a cooperative delay between lookup and insert; every acknowledged mutation must be in the set a later lookup serialises, set == store, and all handed-out mailboxes must reach the same set.",
+            "1-6 tasks first-use one keyspace name concurrently through the write path, the ConsistencyService/ReplicationService handlers and the repair path, with seeded offsets, storage latency and a cooperative delay between lookup and insert; every acknowledged mutation must be in the set a later lookup serialises, set == store, and all handed-out mailboxes must reach the same set. One case in 127 is a real cluster (public API only: the unmodified store start-up) with a node stopped and restarted on slow storage while peers keep writing and re-dialling; no accepted operation may be missing from the state a node serves.",
             "One OS thread (await-point interleavings). The handle/poller call sites are re-issued by the harness with the same statements.",
             "DESIGN.md section 10 C18"),
     "C01": ("E2", "exploration",
-            "2-5 complete nodes (real store, RPC stack over simulated TCP/HTTP2, clock, selector, membership watcher) under seeded operations and faults (holds, crash/restart, lagging/partial membership views, replayed replication messages, clock skew/jumps, storage failures/latency, cooperative delays inside repair); then constructed quiescence and the real repair path for every ordered pair in seeded order; every node's store must equal the last-writer-wins documents.",
-            "chitchat is a stub (harness membership views); recoverable network faults only; SimStorage; all operations within one forgiveness period (validated).",
+            "2-5 complete nodes (real store, RPC stack over simulated TCP/HTTP2, clock, selector, membership watcher) under seeded operations and faults (holds, crash/restart, lagging/partial membership views, replayed replication messages, clock skew/jumps, storage failures/latency, cooperative delays inside repair); then constructed quiescence and the real repair path for every ordered pair in seeded order; every node's store must equal the last-writer-wins documents. One case in 8 builds every node with the public API alone (DatacakeNodeBuilder::connect + store extension) and lets the real gossip layer (vendored, virtual time, seeded) decide membership under long link holds, crashes, restarts and address moves.",
+            "chitchat is a stub (harness membership views) except in the real-membership family; recoverable network faults only; SimStorage; all operations within one forgiveness period (validated).",
             "DESIGN.md section 10 C01"),
     "C06": ("E2", "exploration",
             "Same cluster engine; the oracle runs inside the issuing host at the instant put/put_many/del/del_many returns and reads every node's store: Ok => the level's required number of distinct other holders (computed over the issuer's view, weakest view during the call); ConsistencyFailure => responses < required, responses <= holders, local write in place; closing exchanges replicate it everywhere.",
@@ -77,7 +77,7 @@ CHECKS = {
             "Black-holed requests without a timeout are abandoned by the harness after 30 simulated s (the statement promises no bound for them).",
             "DESIGN.md section 10 C14"),
     "C19": ("E2", "exploration",
-            "Sender state built through the real actor (0..5000 entries, 1-254 origins, both sources, hour-scale spreads, optional purge) and fetched by the real ReplicationClient::get_state over simulated TCP/HTTP2; received set compared by listing, a will_apply probe grid and third-party diffs; garbage arm (own process each): impostor peer answers with an undecodable nested state, get_state must return Err.",
+            "Sender state built through the real actor (0..5000 entries, 1-254 origins, both sources, hour-scale spreads, optional purge) and fetched by the real ReplicationClient::get_state over simulated TCP/HTTP2; received set compared by listing, a will_apply probe grid and third-party diffs against the sender's own serialisation AND against a harness-side set to which the same history and purges were applied; garbage arm (own process each): impostor peer answers with an undecodable nested state, get_state must return Err.",
             "Mutated nested states that happen to stay well-formed are not judged.",
             "DESIGN.md section 10 C19"),
 }
